@@ -99,6 +99,7 @@ theorem wsAll_registerNew (S : WStable P) (w : Watcher) : Pres (WsAll P) (regist
 theorem wsAllLeafX (S : WStable P) : LeafX (WsAll P) where
   emit := fun o => by ws_same
   emitRep := fun c i a b d => by unfold emitRep; ws_same
+  emitEv := fun w t p x => by unfold emitEv; ws_same
   setK := fun k => by unfold setK; ws_same
   setStatus := fun u st => wsAll_modW _ _ (fun w h => S.status w st h)
   trySetNp := wsAll_trySetNp S
